@@ -67,7 +67,7 @@ class Interp:
             p["ctx"].pop().__exit__(None, None, None)
 
     # --------------------------------------------------------------------- audit
-    def audit(self, after):
+    def audit(self, after, extra=None):
         """Semantic oracle on the file as it is right now."""
         from aspire.utils import AspireFile, load_from_h5_file
 
@@ -85,7 +85,7 @@ class Interp:
             flow = SimFlow.load(f, "flow") if has_flow else None
             cfg = load_from_h5_file(f, "aspire_config") if has_cfg else None
         st_ = pickle.loads(blob)
-        w = {"after": after.split("(")[0]}
+        w = {"after": after.split("(")[0], **(extra or {})}
         self.col.nontrivial.add(("audit_with_checkpoint", after))
         if flow is None:
             raise Violation("c14.no_flow", f"after {after}: the file holds a checkpoint but no proposal", w)
@@ -197,13 +197,16 @@ class Interp:
         m.crash_like_at = None if crash_at is None else m.n_like_calls + crash_at
         m.crash_kind = "model_error"
         where = f"sample({sampler}, {'explicit path' if explicit_path else ('auto context' if p['ctx'] else 'no file')}" + (", crashed" if crash_at is not None else "") + ")"
+        crashed = False
         try:
             p["A"].sample_posterior(12, sampler=sampler, **kw)
         except SimModelError:
+            crashed = True
             self.col.fault("crash_during_sample")
         finally:
             m.crash_like_at = None
-        self.audit(where)
+        # which history led here is part of the verdict's identity (known_findings.json matches on it)
+        self.audit(where, {"crashed": crashed, "on_resumed_instance": p["fitted"] == "file"})
 
     def op_resume_and_sample(self, in_context, sampler=None, override_at="ctor"):
         self.ops.append(("resume_and_sample", dict(in_context=in_context, sampler=sampler, override_at=override_at)))
